@@ -70,6 +70,14 @@ CLAIMS.update({
    design="3/C09"),
 })
 
+CLAIMS.update({
+ 'C13': dict(
+   text="Exhaustive enumeration (X3) on T2 of a header-list grammar: a valid base message with every single defect and every pair of defects (each pseudo-header dropped / duplicated / emptied / after a regular field, wrong-direction and unknown pseudo-headers, the five connection-specific fields, TE values, upper-case names via raw HPACK, content-length syntax), for requests (real server), responses, responses to HEAD, interim responses, trailers and promised requests (real client), CONNECT / extended CONNECT shapes with and without ENABLE_CONNECT_PROTOCOL, every DATA length pattern {0,1,n-1,n,n+1} x <= 2 frames x END_STREAM placement against content-length, and every single-defect request with its header block cut into HEADERS+CONTINUATION at every offset. An RFC 9113 section 8 validity predicate decides: malformed => nothing returned as Ok and the stream/connection failed; body mismatch => Err, not a clean end; well-formed => delivered intact (so rejecting everything does not pass). Send side: every send call (request, response, informational, push, trailers both ways) with each forbidden / permitted field must be refused / accepted and nothing forbidden may reach the wire.",
+   note="Predicate hand-written from RFC 9113 8.1-8.5, RFC 8441. Empty :authority and status 101 are 'unspecified'. One open known finding (response without :status delivered as 200).",
+   tech="exhaustive enumeration of an input grammar against a reference validity predicate, on the real endpoints",
+   design="3/C13"),
+})
+
 NOT_YET = "check not built yet (work in progress; DESIGN.md section 3 describes the planned harness)"
 NA = {}
 
